@@ -64,7 +64,13 @@ Inductive op :=
 | Create (i : id) (v : value)
 | Update (i : id) (v : value)
 | Delete (i : id)
-| Init (seeds : list (id * value)).   (* in the order the OnChange callbacks are called *)
+| Init (seeds : list (id * value))    (* in the order the OnChange callbacks are called *)
+(* an Init call that FAILS for a reason outside the seed ids: the add callback got a value of the
+   wrong type, the init callback returned an error, or a seed could not be encoded (setValue
+   error) after [nset] other seeds were already set inside the transaction.  The transaction is
+   aborted: explicit outcome "error, nothing changed".  (Empty / duplicate seed ids are decided
+   by [valid_seeds] on [Init] itself.)  With the marker present Init returns nil before any of this. *)
+| InitErr (nset : nat).
 
 Definition isSomeV (o : option value) : bool := match o with Some _ => true | None => false end.
 
@@ -130,6 +136,9 @@ Definition compile_op (c : content) (o : op) : list mstep * content :=
                   ([SHit pt_delete_before; SCommit FromOp ws; SHit pt_delete_committed;
                     SEnq (i, Some b, None); SAck true], apply_ws c ws)
       end
+  | InitErr nset =>
+      if isSomeV (get KMark c) then ([SAck true], c)
+      else (map (fun _ => SHit pt_init_seed_set) (repeat tt nset) ++ [SAck false], c)
   | Init s =>
       if isSomeV (get KMark c) then ([SAck true], c)
       else if negb (valid_seeds s) then ([SAck false], c)
